@@ -19,7 +19,8 @@
    than /Pages and the open-document keys or from a trailer key, 135 = the same for an object stream
    (which may also hold page tree nodes),
    335 = an object stream without such users; 412 / 435 = also reached from the /Thumb of the SAME page
-   (first page / later page). *)
+   (first page / later page), 635 = also reached from the /Thumb of ANOTHER page; 512 / 535 = a page-tree node (or what it holds) from which the page still INHERITS
+   /Resources, /MediaBox, /CropBox or /Rotate through /Parent (7.7.3.4): the page cannot be shown without it. *)
 From Coq Require Import String Ascii.
 From QV Require Import Base.Bytes File.StrictSyntax File.Inflate File.ReadStrict Lin.HintTypes.
 Local Open Scope N_scope.
@@ -45,6 +46,10 @@ Definition afn_Encrypt := Eval vm_compute in af_str "Encrypt".
 (* catalog entries needed when the document is opened (F.3.3, part 4) *)
 Definition afn_open_document_keys : list (list N) :=
   Eval vm_compute in map af_str ["ViewerPreferences"; "PageMode"; "Threads"; "OpenAction"; "AcroForm"]%string.
+
+(* inheritable page attributes (ISO 32000-1 7.7.3.4, Table 30) *)
+Definition afn_inheritable_keys : list (list N) :=
+  Eval vm_compute in map af_str ["Resources"; "MediaBox"; "CropBox"; "Rotate"]%string.
 
 (* ------------------------------------------------------------------ bit fields, MSB first *)
 Fixpoint af_byte_bits (n : nat) (b : N) : list bool :=
@@ -265,6 +270,50 @@ Definition af_page_needs (fuel : nat) (objs : list sobj) (p : N) : list N :=
   | None => [p]
   end.
 
+(* ---- inherited page attributes (7.7.3.4): a page that has no entry for an inheritable key takes the value of the nearest
+   ancestor that has one. What the page needs THROUGH /Parent is then: that ancestor node (its dictionary must be read) and
+   everything the inherited value references. Intermediate nodes that contribute nothing are not counted. ---- *)
+Definition af_dict_has (d : list (list N * pobj)) (k : list N) : bool :=
+  match dict_get d k with Some SpNull => false | Some _ => true | None => false end.
+
+Definition af_parent_of (d : list (list N * pobj)) : option N :=
+  match dict_get d afn_Parent with Some (SpRef n _) => Some n | _ => None end.
+
+(* (node, key, value) for every key of [missing] settled on the way up *)
+Fixpoint af_inh_walk (fuel : nat) (objs : list sobj) (node : option N) (missing : list (list N)) : list (N * pobj) :=
+  match fuel with
+  | O => []
+  | S f =>
+      match node, missing with
+      | None, _ => []
+      | _, [] => []
+      | Some n, _ =>
+          match af_find objs n with
+          | Some o =>
+              match so_val o with
+              | SpDict d =>
+                  flat_map (fun k => if af_dict_has d k then match dict_get d k with Some v => [(n, v)] | None => [] end else []) missing ++
+                  af_inh_walk f objs (af_parent_of d) (filter (fun k => negb (af_dict_has d k)) missing)
+              | _ => []
+              end
+          | None => []
+          end
+      end
+  end.
+
+Definition af_page_inherits (fuel : nat) (objs : list sobj) (p : N) : list (N * pobj) :=
+  match af_find objs p with
+  | Some o => match so_val o with
+              | SpDict d => af_inh_walk fuel objs (af_parent_of d) (filter (fun k => negb (af_dict_has d k)) afn_inheritable_keys)
+              | _ => []
+              end
+  | None => []
+  end.
+
+(* the objects page p needs through inheritance: the supplying nodes and what the inherited values reach *)
+Definition af_page_inh_needs (fuel : nat) (objs : list sobj) (p : N) : list N :=
+  flat_map (fun nv => fst nv :: af_closure fuel objs (af_refs (snd nv)) []) (af_page_inherits fuel objs p).
+
 Definition af_dedup (l : list N) : list N := fold_left (fun acc n => if af_mem n acc then acc else n :: acc) l [].
 
 (* leaves of the page tree in order; None when a node cannot be read (encrypted object stream) *)
@@ -336,7 +385,7 @@ Definition af_seqN (first : N) (n : N) : list N := map (fun i => first + N.of_na
 
 Record af_report := {
   ar_errors : list (N * N * N);
-  ar_notes : list (N * N * N);          (* clauses not judged, with the reason code *)
+  ar_notes : list (N * N * N);          (* clauses not judged, with the reason code; (50, page index, node): the page inherits an attribute from that node *)
   ar_params : list N;                   (* L H0 H1 O E N T *)
   ar_hint_data : list N;
   ar_hint_SO : N * N;
@@ -363,7 +412,8 @@ Section HintClauses.
   Variable objs : list sobj.
   Variables (h0 h1 : N).                  (* /H *)
   Variable pages : list N.                (* page objects *)
-  Variable needs : list (list N).         (* per page: containers of what it needs *)
+  Variable needs : list (list N).         (* per page: containers of what it needs (references and inherited attributes) *)
+  Variable inh_only : list (list N).      (* per page: containers needed only because an attribute is inherited through /Parent *)
   Variable outline_set : list N.          (* containers of what /Outlines reaches *)
   Variable doclevel_set : list N.         (* containers of what catalog keys other than /Pages and the open-document keys, and trailer keys, reach *)
   Variable thumb_sets : list (list N).    (* per page: containers of what the page's own /Thumb reaches *)
@@ -418,10 +468,12 @@ Section HintClauses.
                                       match af_find objs c with
                                       | Some o => match af_off o with
                                                   | Some a => af_when (first_page_obj_off <=? a)
-                                                                (af_err (if af_has_type n_ObjStm (so_val o)
+                                                                (af_err (if af_mem c (nth (N.to_nat i) inh_only []) then 535
+                                                                         else if af_has_type n_ObjStm (so_val o)
                                                                          then (if af_mem c doclevel_set || af_mem c pagestree_set then 135 else 335)
                                                                          else if af_mem c doclevel_set then 235
-                                                                         else if af_mem c (nth (N.to_nat i) thumb_sets []) then 435 else 35) i c)
+                                                                         else if af_mem c (nth (N.to_nat i) thumb_sets []) then 435
+                                                                         else if existsb (af_mem c) thumb_sets then 635 else 35) i c)
                                                   | None => []
                                                   end
                                       | None => []
@@ -613,10 +665,23 @@ Definition lin_check (file : list N) : af_report :=
                                  end in
                       (* what the first page needs precedes /E *)
                       let cont := fun l => af_dedup (map (af_container objs) l) in
-                      let needs := match pages with
-                                   | Some ps => map (fun p => cont (af_page_needs fuel objs p)) ps
-                                   | None => []
-                                   end in
+                      let needs_ref := match pages with
+                                       | Some ps => map (fun p => cont (af_page_needs fuel objs p)) ps
+                                       | None => []
+                                       end in
+                      (* ... and through inheritance (7.7.3.4) *)
+                      let inh_raw := match pages with
+                                     | Some ps => map (fun p => af_page_inherits fuel objs p) ps
+                                     | None => []
+                                     end in
+                      let inh := match pages with
+                                 | Some ps => map (fun p => cont (af_page_inh_needs fuel objs p)) ps
+                                 | None => []
+                                 end in
+                      let inh_only := map (fun ab => filter (fun c => negb (af_mem c (fst ab))) (snd ab)) (combine needs_ref inh) in
+                      let needs := map (fun ab => fst ab ++ snd ab) (combine needs_ref inh_only) in
+                      let n50 := flat_map (fun il => map (fun nv => (50, fst il, fst nv)) (snd il))
+                                          (combine (map N.of_nat (seq 0 (length inh_raw))) inh_raw) in
                       let outl := match dict_get catd afn_Outlines with
                                   | Some (SpRef orf _) => cont (af_closure fuel objs [orf] [])
                                   | _ => []
@@ -637,7 +702,8 @@ Definition lin_check (file : list N) : af_report :=
                       let ptree := match dict_get catd afn_Pages with Some v => cont (af_closure fuel objs (af_refs v) []) | None => [] end in
                       let e12 := flat_map (fun c => match af_find objs c with
                                                     | Some o => match af_off o with
-                                                                | Some a => af_when (E <=? a) (af_err (if af_mem c outl && negb use_outl
+                                                                | Some a => af_when (E <=? a) (af_err (if af_mem c (hd [] inh_only) then 512
+                                                                                                       else if af_mem c outl && negb use_outl
                                                                                                        then (if af_has_type n_ObjStm (so_val o) then 112 else 212)
                                                                                                        else if af_has_type n_ObjStm (so_val o) then 312
                                                                                                        else if af_mem c thumb0 then 412 else 12) c a)
@@ -646,7 +712,7 @@ Definition lin_check (file : list N) : af_report :=
                       (* hint tables *)
                       let base := e2 ++ e3 ++ e4 ++ e56 ++ e78 ++ e13 ++ e9 ++ e11 ++ e14 ++ e10 ++ e12 in
                       let mk := fun errs notes data so tables meas =>
-                        {| ar_errors := errs; ar_notes := notes; ar_params := params; ar_hint_data := data; ar_hint_SO := so;
+                        {| ar_errors := errs; ar_notes := notes ++ n50; ar_params := params; ar_hint_data := data; ar_hint_SO := so;
                            ar_tables := tables; ar_pages := match pages with Some ps => ps | None => [] end; ar_measured := meas |} in
                       if encrypted then mk base (n78 ++ af_err 20 1 0) [] (0, 0) None [] else
                       match hobj, pages with
@@ -660,7 +726,7 @@ Definition lin_check (file : list N) : af_report :=
                                   | None => mk (base ++ af_err 21 0 0) n78 data (hS, match Oo with Some o => o | None => 0 end) None []
                                   | Some (hp, hs, hg, ends) =>
                                       let p0off := match af_find objs p0 with Some o => match af_off o with Some a => a | None => 0 end | None => 0 end in
-                                      let '(herrs, meas) := af_hint_clauses objs h0 h1 ps needs outl doclevel thumbs ptree use_outl p0off pO hp hs hg ends hS Oo in
+                                      let '(herrs, meas) := af_hint_clauses objs h0 h1 ps needs inh_only outl doclevel thumbs ptree use_outl p0off pO hp hs hg ends hS Oo in
                                       mk (base ++ herrs) n78 data (hS, match Oo with Some o => o | None => 0 end) (Some (hp, hs, hg)) meas
                                   end
                               | _, _ => mk (base ++ af_err 20 0 0) n78 [] (0, 0) None []
